@@ -1416,6 +1416,10 @@ func (x *fx) ret(i *ssa.Return) {
 		if skip {
 			continue // mentions a local variable that is not in scope at this return
 		}
+		if x.ensuresEvaluated == nil {
+			x.ensuresEvaluated = map[int]bool{}
+		}
+		x.ensuresEvaluated[k] = true
 		if o := x.oblige("post", clauseLabel(cl, k), g, "postcondition: "+cl.Src); o != nil {
 			o.Src, o.Line = cl.Src, cl.Line
 			o.Name = fmt.Sprintf("%s.%s#post:%s@ret%d", x.pkgShort(), x.cname(), clauseLabel(cl, k), x.retCount)
@@ -1630,6 +1634,9 @@ func (x *fx) evalEnsures(e *Expr, env *specEnv) (g string, skip bool) {
 			if se, ok := r.(specErr); ok && strings.HasPrefix(string(se), "unbound name ") {
 				name := strings.Fields(strings.TrimPrefix(string(se), "unbound name "))[0]
 				if x.isLocalName(name) {
+					if os.Getenv("VCGEN_DEBUG_SKIP") != "" {
+						fmt.Fprintf(os.Stderr, "skip ensures %s at ret%d: %s\n", e, x.retCount, string(se))
+					}
 					skip = true
 					return
 				}
